@@ -45,4 +45,69 @@ def readOptions (elements pseudo replacement allowed required heating cooling sh
          required := parseList required, heating := parseList heating, cooling := parseList cooling, shielding := sh,
          files := parseList files, formats := parseList formats }
 
+/-! ### `--rate-modifier` and `--ode-modifier` (`console/commands/init.py`) -/
+
+/-- one piece of a `--rate-modifier` occurrence: `rm.split(":")`, entry `rm[0].strip(): rm[1].strip()`;
+    `none` = IndexError (no `:` in the piece); anything after a second `:` is ignored, as in the code -/
+def parseRatePiece (rm : Str) : Option (Str × Str) :=
+  match splitOnC ':' rm with
+  | k :: v :: _ => some (strip k, strip v)
+  | _ => none
+
+/-- `[rm.strip() for l in occurrences for rm in l.split(",")]`, then one entry per piece, in order -/
+def parseRateMod (occs : List Str) : Option (List (Str × Str)) :=
+  (occs.flatMap fun l => (splitOnC ',' l).map strip).mapM parseRatePiece
+
+/-- a Python dict filled in order: a repeated key keeps its first position and takes the last value -/
+def dictSet (d : List (Str × Str)) (k v : Str) : List (Str × Str) :=
+  if d.any (fun p => p.1 == k) then d.map (fun p => if p.1 == k then (k, v) else p) else d ++ [(k, v)]
+def dictOf (ps : List (Str × Str)) : List (Str × Str) := ps.foldl (fun d p => dictSet d p.1 p.2) []
+
+/-- as `naunet example` writes it: `",".join(f"{r}:{rv}")` -/
+def showRateMod (pairs : List (Str × Str)) : Str := joinC ',' (pairs.map fun p => p.1 ++ ':' :: p.2)
+
+structure OdeTerm where
+  key  : Str
+  fact : Str
+  deps : List Str
+  deriving DecidableEq, Repr
+
+/-- `rdep.replace("[", "").replace("]", "")` -/
+def dropBrackets (s : Str) : Str := s.filter (fun c => c != '[' && c != ']')
+
+/-- `key, value = om.split(":")`, `fact, rdep = value.split(",")` (each needs exactly two parts, else ValueError),
+    `rdep.replace("[","").replace("]","").strip().split()` -/
+def parseOdeTerm (om : Str) : Option OdeTerm :=
+  match splitOnC ':' om with
+  | [key, value] =>
+    (match splitOnC ',' value with
+     | [fact, rdep] => some ⟨key, fact, words (strip (dropBrackets rdep))⟩
+     | _ => none)
+  | _ => none
+
+/-- the pieces of one occurrence, in order; an empty piece ends the occurrence (`break`) -/
+def parseOdeOcc : List Str → Option (List OdeTerm)
+  | [] => some []
+  | om :: rest =>
+    if om.isEmpty then some []
+    else match parseOdeTerm om, parseOdeOcc rest with
+      | some t, some ts => some (t :: ts)
+      | _, _ => none
+
+def parseOdeMod (occs : List Str) : Option (List OdeTerm) :=
+  (occs.mapM fun l => parseOdeOcc (splitOnC ';' l)).map List.flatten
+
+/-- the dictionary `init` builds: per target the factors and dependency lists in order of appearance -/
+def groupAdd (d : List (Str × List Str × List (List Str))) (t : OdeTerm) : List (Str × List Str × List (List Str)) :=
+  if d.any (fun e => e.1 == t.key) then
+    d.map (fun e => if e.1 == t.key then (e.1, e.2.1 ++ [t.fact], e.2.2 ++ [t.deps]) else e)
+  else d ++ [(t.key, [t.fact], [t.deps])]
+def groupTerms (ts : List OdeTerm) : List (Str × List Str × List (List Str)) := ts.foldl groupAdd []
+
+/-- `f"{sname}:{fact},[{' '.join(dep)}];"` -/
+def showOdeBody (t : OdeTerm) : Str := t.key ++ ':' :: (t.fact ++ ',' :: '[' :: (joinC ' ' t.deps ++ [']']))
+def showOdeOcc : List OdeTerm → Str
+  | [] => []
+  | t :: ts => showOdeBody t ++ ';' :: showOdeOcc ts
+
 end Naunet.Cfg
